@@ -201,6 +201,11 @@ def map_failures(g, res):
                 if fi:
                     oid = f'{g.unit}::{fi.name}::safe'
                     site = g.repo_loc(s[0])
+                    if 'assertion' in msg and s[0] and g.origin[s[0] - 1][0] == 'contract' and g.origin[s[0] - 1][2] == 'proof':
+                        lab = label_at(fi, s[0])
+                        # only a label that sits inside the same proof block (directly above the assert) names the obligation
+                        if lab and all(g.origin[k - 1][0] == 'contract' and g.origin[k - 1][2] == 'proof' for k in range(lab[0], s[0] + 1)):
+                            oid = f'{g.unit}::{fi.name}::assert:{lab[1]}'
         if oid is None:
             unmapped.append(d)
             continue
